@@ -59,10 +59,8 @@ class Addr:
 
         fmt = "%Y-%m-%d %H:%M:%S"
 
-        # if we already have expiry times, etc then we want to
-        # properly delay our timeout
-
-        oldexpires = self.expires
+        # if we already have a pending expiry call we re-schedule it
+        # below
 
         if gmtexpires.upper() == 'NEVER':
             # FIXME can I just select a date 100 years in the future instead?
@@ -72,17 +70,16 @@ class Addr:
         self.created = datetime.datetime.utcnow()
 
         if self.expires is not None:
-            if oldexpires is None:
-                if self.expires <= self.created:
-                    diff = datetime.timedelta(seconds=0)
-                else:
-                    diff = self.expires - self.created
-                self.expiry = self.map.scheduler.callLater(diff.seconds,
-                                                           self._expire)
-
+            if self.expires <= self.created:
+                delay = 0
             else:
-                diff = self.expires - oldexpires
-                self.expiry.delay(diff.seconds)
+                # (not .seconds, which forgets about whole days)
+                delay = (self.expires - self.created).total_seconds()
+            if self.expiry is not None and self.expiry.active():
+                self.expiry.reset(delay)
+            else:
+                self.expiry = self.map.scheduler.callLater(delay,
+                                                           self._expire)
 
     def _expire(self):
         """
